@@ -26,6 +26,8 @@ RULE = (
     "generated JSON path (delete a key; unknown discriminator literal; object or array replaced by a string or null; "
     "unknown bound literal; unknown top-level key); acceptance by the strict / lax pydantic models (rebuilt as the "
     "script does, in a worker process) must equal acceptance by jsonschema on the published strict / lax file. "
+    "accepted-keys clause (exhaustive over the fields of every serialization model): the keys a model reads (name, alias, "
+    "validation-alias choices) are exactly the properties of its published definition. "
     "Non-trivial = mutated path inside nodes[*], a type, a value or an op def; distinct by canonical JSON."
 )
 ASSUMPTIONS = [
@@ -83,11 +85,62 @@ def enum_files(tier):
     for n in FILES:
         yield {"file": n}
     yield {"version": True}
+    yield {"keys": True}
+
+
+def check_keys() -> list[Fail]:
+    """The keys a model reads (field name, alias, validation alias choices, name when populate_by_name)
+    are exactly the property names its published definition lists: an input key the schema does
+    not know is invisible in the generated schema (only the first alias choice is printed)."""
+    import importlib
+
+    import pydantic
+
+    defs: dict = {}
+    for name in FILES:
+        with open(os.path.join(REPO, "specification", "schema", name)) as f:
+            doc = json.load(f)
+        for k, v in doc.get("$defs", {}).items():
+            defs.setdefault(k, v)
+        if "title" in doc:
+            defs.setdefault(doc["title"], doc)
+    fails = []
+    seen = 0
+    for modname in ("tys", "ops", "serial_hugr", "testing_hugr", "extension"):
+        mod = importlib.import_module("hugr._serialization." + modname)
+        for cname, cls in sorted(vars(mod).items()):
+            if not (isinstance(cls, type) and issubclass(cls, pydantic.BaseModel)) or issubclass(cls, pydantic.RootModel) or cls.__module__ != mod.__name__:
+                continue
+            d = defs.get(cname)
+            if d is None or "properties" not in d:
+                continue
+            seen += 1
+            reads = set()
+            for fname, fi in cls.model_fields.items():
+                va = fi.validation_alias
+                if va is None:
+                    reads.add(fi.alias or fname)
+                elif isinstance(va, str):
+                    reads.add(va)
+                elif isinstance(va, pydantic.AliasChoices):
+                    reads |= {c if isinstance(c, str) else repr(c) for c in va.choices}
+                else:
+                    reads.add(repr(va))
+                if (fi.alias or va is not None) and (cls.model_config.get("populate_by_name") or cls.model_config.get("validate_by_name")):
+                    reads.add(fname)
+            props = set(d["properties"])
+            if reads != props:
+                fails.append(Fail("accepted-keys", f"{cname}:{'+'.join(sorted(reads ^ props))}", f"{cname} reads {sorted(reads)}, published properties {sorted(props)}"))
+    if seen < 40:
+        raise HarnessError(f"only {seen} model classes matched published definitions")
+    return fails[:6]
 
 
 def check_version(case) -> list[Fail]:
     if "file" in case:
         return check_file(case)
+    if "keys" in case:
+        return check_keys()
     from hugr._serialization.extension import Extension, Package
     from hugr._serialization.serial_hugr import SerialHugr, serialization_version
     from hugr._serialization.testing_hugr import TestingHugr
